@@ -192,7 +192,7 @@ bool DetachP(H& hd, int attach, const FnSpec* s, yaclib::IExecutor* e) {
       hd.SubscribeInline(F{s});
     } else if (attach == aOn) {
       // SharedFutureOn::Subscribe(f) hides the base's Subscribe(e, f) (no using-declaration): go through the base
-      static_cast<const yaclib::SharedFutureBase<V, Err>&>(hd).Subscribe(*e, F{s});
+      static_cast<const yaclib::SharedFutureBase<PayOf<V>, Err>&>(hd).Subscribe(*e, F{s});
     } else {
       if constexpr (kOn) {
         hd.Subscribe(F{s});
